@@ -35,6 +35,8 @@ type c06Case struct {
 	Subdir   bool     `json:"subdir,omitempty"`   // protected files live in sub-directories
 	LongName int      `json:"longname,omitempty"` // protected file 1 lives N directories deep (40-byte components): the stored relative name exceeds 255 bytes for N>=7
 	RecvRev  bool     `json:"recvrev,omitempty"`  // recovery packets in descending order, duplicated
+	Big      int      `json:"big,omitempty"`      // 0: tiny files; 1, 2: files above 16 KiB (17000 and 16500 bytes, slice 500), generation Big-1 of the content beyond the first 16 KiB
+	PriorGen bool     `json:"priorgen,omitempty"` // history in the process: the OTHER generation of the same set (same names, lengths, first 16 KiB => same file ids and set id; other content) was verified first, in a directory of its own
 	Damage   string   `json:"damage"`             // none, del0, del1, ovw0, ovw1
 	G        int      `json:"g,omitempty"`
 }
@@ -150,6 +152,19 @@ func c06Alternatives(allPerms bool) []func(*c06Case) {
 func c06Gen(g *core.Gen) {
 	d0 := c06Default()
 	g.Emit(&d0)
+	// files above 16 KiB, two generations sharing every id; each read alone and right after the other generation
+	for big := 1; big <= 2; big++ {
+		for _, prior := range []bool{false, true} {
+			for _, dmg := range []string{"none", "del0", "ovw1", "del1"} {
+				for volcore := 0; volcore <= 3; volcore++ {
+					c := c06Default()
+					c.Big, c.PriorGen, c.Damage, c.VolCore = big, prior, dmg, volcore
+					c.Exps = []int{0, 1, 2, 5}
+					g.Emit(&c)
+				}
+			}
+		}
+	}
 	all := c06Alternatives(true)
 	for _, a := range all {
 		c := c06Default()
@@ -221,15 +236,52 @@ func c06Run(ci interface{}, r *core.Rec) {
 		names = []string{names[0], n + "f1"}
 	}
 	sizes := []int{11, 6}
-	const slice = 4
+	slice := 4
+	if c.Big > 0 {
+		sizes = []int{17000, 16500}
+		slice = 500
+	}
+	content := func(i, generation int) []byte {
+		d := scen.Content("uniq", r.Seed, i, sizes[i], slice)
+		if generation > 0 && len(d) > 16384 {
+			alt := scen.Content("uniq", r.Seed+int64(generation)*100003, i, sizes[i], slice)
+			copy(d[16384:], alt[16384:])
+		}
+		return d
+	}
 	var specs []rpar2.FileSpec
 	var datas [][]byte
 	for i, n := range names {
-		d := scen.Content("uniq", r.Seed, i, sizes[i], slice)
+		d := content(i, c.Big-1)
 		datas = append(datas, d)
 		specs = append(specs, rpar2.FileSpec{Name: n, Data: d})
 	}
 	set := rpar2.NewSet(slice, specs)
+	if c.PriorGen && c.Big > 0 {
+		// the other generation, written by the reference writer into its own directory and verified first
+		dirP := filepath.Join(root, "prior")
+		var pspecs []rpar2.FileSpec
+		for i, n := range names {
+			d := content(i, 2-c.Big)
+			pspecs = append(pspecs, rpar2.FileSpec{Name: n, Data: d})
+			pp := filepath.Join(dirP, n)
+			os.MkdirAll(filepath.Dir(pp), 0755)
+			ioutil.WriteFile(pp, d, 0644)
+		}
+		pset := rpar2.NewSet(slice, pspecs)
+		if pset.SetID != set.SetID {
+			r.Violate("harness:generations-do-not-share-the-set-id", "the two generations were meant to have the same recovery-set id")
+			return
+		}
+		pk := pset.CorePackets("refwriter")
+		for _, e := range c.Exps {
+			pk = append(pk, pset.RecvPacket(uint32(e), pset.RecoveryBlock(e)))
+		}
+		ioutil.WriteFile(filepath.Join(dirP, c.Base+".par2"), rpar2.Join(pset.CorePackets("refwriter")...), 0644)
+		ioutil.WriteFile(filepath.Join(dirP, c.Base+".vol0+9.par2"), rpar2.Join(pk...), 0644)
+		core.Catch(func() { par2.Verify(filepath.Join(dirP, c.Base+".par2"), par2.VerifyOptions{NumGoroutines: 1}) })
+		r.AddTransitions(1)
+	}
 	other := rpar2.NewSet(slice, []rpar2.FileSpec{{Name: "zz", Data: scen.Garbage(r.Seed, 4242, 9)}})
 	foreignPkt := other.MainPacket()
 	unkBody := []byte("opaque!!")
